@@ -25,6 +25,7 @@ def run(run, replay=None):
     run.regenerate(["Server", "Kkc", "Dic"])
     if run.build_props():
         run.audit()
+    S.conc_check(run)
     bindir = S.build_binaries(run)
     if bindir is None:
         return
